@@ -109,18 +109,22 @@ def truth(st, v):
     return None
 
 
-def yield_index(fn):
-    """id(yield node) -> (kind, ordinal among that kind in source order)"""
-    out, counts = {}, {}
+def yield_index(fn, out=None, counts=None):
+    """(line, column) of a yield -> (kind, ordinal among that kind in source order); with out/counts: the
+    yields of a further function (a delegated generator method) are numbered after those already known"""
+    out = {} if out is None else out
+    counts = {} if counts is None else counts
     ys = [n for n in ast.walk(fn) if isinstance(n, ast.Yield)]
     ys.sort(key=lambda n: (n.lineno, n.col_offset))
     for y in ys:
         kind = "?"
         if isinstance(y.value, ast.Call) and isinstance(y.value.func, ast.Name):
             kind = y.value.func.id
+        if (y.lineno, y.col_offset % 10000) in out:
+            continue
         k = counts.get(kind, 0)
         counts[kind] = k + 1
-        out[id(y)] = (kind, k)
+        out[(y.lineno, y.col_offset % 10000)] = (kind, k)
     return out
 
 
@@ -136,14 +140,90 @@ def call_index(fn, names):
     return out
 
 
+REPO = None      # set by the driver: the parsed package (class hierarchy, module-level functions)
+
+HARMLESS_CALLS = {"set", "list", "dict", "tuple", "frozenset", "sorted", "reversed", "isinstance", "hasattr", "print", "range",
+                  "abs", "iter", "enumerate", "zip", "str", "repr", "float", "len", "int", "bool", "min", "max", "sum",
+                  "any", "all", "divmod", "round", "type", "id", "partial", "super", "object", "warn", "format"}
+
+
+def is_exception_name(name):
+    return name.endswith(("Error", "Exception", "Warning")) or name.startswith("Invalid") or name in ("StopIteration", "KeyboardInterrupt")
+
+
+def class_context(klass):
+    methods, props = {}, {}
+    if klass is None or REPO is None:
+        return methods, props
+    for _, c in REPO.mro(klass):
+        for f in c.body:
+            if not isinstance(f, ast.FunctionDef):
+                continue
+            decos = {ast.unparse(d) for d in f.decorator_list}
+            if "property" in decos or "cached_property" in decos or "functools.cached_property" in decos:
+                props.setdefault(f.name, f)
+            elif not any(d.endswith((".setter", ".deleter")) for d in decos):
+                methods.setdefault(f.name, f)
+    return methods, props
+
+
+_PKG = None
+
+
+def package_functions():
+    """names of the package's module-level functions and classes: calling one is a modelled construct (its
+    result is an unconstrained value of the analysis, as for the pinned planners)"""
+    global _PKG
+    if REPO is None:
+        return frozenset()
+    if _PKG is None or _PKG[0] is not REPO:
+        names = set()
+        for rel, m in REPO.modules.items():
+            for n in m.tree.body:
+                if isinstance(n, (ast.FunctionDef, ast.ClassDef)):
+                    names.add(n.name)
+                elif isinstance(n, ast.Assign):
+                    for t in n.targets:
+                        if isinstance(t, ast.Name):
+                            names.add(t.id)
+        _PKG = (REPO, frozenset(names))
+    return _PKG[1]
+
+
+def is_generator_def(fdef):
+    for n in ast.walk(fdef):
+        if isinstance(n, (ast.Yield, ast.YieldFrom)):
+            return True
+    return False
+
+
 class Interp:
     DEFAULT_PART = ("$ef", "$work", "$last")
 
     def __init__(self, fn, entry=None, partvars=(), closures=None,
                  finalize_havoc=True, resolver=None, hooks=None,
                  record_calls=("n_advance", "mixed_step_memoization",
-                               "mixed_steps_tabulation")):
+                               "mixed_steps_tabulation"), klass=None):
         self.fn = fn
+        # class context: methods and properties of the analysed class (resolved along its bases), so that
+        # self.m(...) / self.p / `yield from self.g(...)` are analysed instead of guessed
+        self.methods, self.props = class_context(klass)
+        self.pkg_functions = package_functions()
+        # constructs outside the modelled fragment (calls of callables that cannot be resolved, containers
+        # that escape into them): verdicts from a run that met one are never definite refutations
+        self.fuzzy = []
+        self.part_cap = 96
+        self.fnlocals = {n.id for n in ast.walk(fn) if isinstance(n, ast.Name) and isinstance(n.ctx, ast.Store)} | \
+            {n.name for n in ast.walk(fn) if isinstance(n, ast.FunctionDef) and n is not fn} | \
+            {a.arg for a in fn.args.args + fn.args.kwonlyargs}
+        self.fndefs = {}
+        for n in ast.walk(fn):
+            if isinstance(n, ast.FunctionDef) and n is not fn:
+                self.fndefs[n.name] = self.fndefs.get(n.name, 0) + 1
+            elif isinstance(n, ast.Assign) and isinstance(n.value, ast.Name):
+                for t in n.targets:
+                    if isinstance(t, ast.Name):
+                        self.fndefs[t.id] = self.fndefs.get(t.id, 0) + 1
         self.closures = dict(closures or {})
         self.partvars = tuple(self.DEFAULT_PART) + tuple(partvars)
         self.finalize_havoc = finalize_havoc
@@ -153,6 +233,7 @@ class Interp:
         self.yields, self.calls, self.labels = [], [], []
         self.outcomes, self.cops, self.subs = [], [], []
         self.substores = []
+        self.astores = []         # (target node, symbol, state before the store, stored value) of attribute stores
         self.label_atoms = {}
         self.tuple_arity = {}
         self.summaries = {}
@@ -170,7 +251,8 @@ class Interp:
         self.container_arity = {}
         self.attr_writes = set()
         self.entry = entry
-        self.yidx = yield_index(fn)
+        self.ycounts = {}
+        self.yidx = yield_index(fn, None, self.ycounts)
         self.cidx = call_index(fn, record_calls)
         self.record_calls = record_calls
         self.max_parts = 0
@@ -221,7 +303,7 @@ class Interp:
                 groups[k] = s
                 order.append(k)
         self.max_parts = max(self.max_parts, len(order))
-        if len(order) > 64:
+        if len(order) > self.part_cap:
             # too many partitions: give up the least important partition variable and merge
             for drop in ("$last", "$work"):
                 if drop in self.partvars:
@@ -254,11 +336,15 @@ class Interp:
                 and node.value.id in ENUM_CLASSES:
             return Tok(node.value.id + "." + node.attr)
         s = self.sym_of(node)
+        if s is not None and s.startswith("self.") and s[5:] in self.props and isinstance(node.ctx, ast.Load):
+            call = ast.copy_location(ast.Call(func=node, args=[], keywords=[]), node)
+            return self.inline(self.props[s[5:]], call, st, skip_self=True)
+        if s is not None and isinstance(node, ast.Name) and s not in self.fnlocals and \
+                (s in self.summaries or s in self.hooks):
+            return Tok("fn:" + s)
         if s is not None:
             if s in self.containers:
                 return Val("container", s)
-            if s in self.closures:
-                return Val("closure", s)
             ar = self.tuple_arity.get(s) if isinstance(node, ast.Name) else None
             if ar and st.enum_is(s, "None") == "no":
                 return tuple(Lin.sym(f"{s}.{k}") for k in range(ar))
@@ -307,6 +393,8 @@ class Interp:
             return self.opaque(node, st)
         if isinstance(node, (ast.List, ast.Set, ast.Dict)):
             return Val("lit", node)
+        if isinstance(node, (ast.Yield, ast.YieldFrom, ast.Await)):
+            raise Unsupported(f"{type(node).__name__} inside an expression at line {node.lineno}")
         return self.opaque(node, st)
 
     def opaque(self, node, st, tag=""):
@@ -505,21 +593,33 @@ class Interp:
                     elif st.entails_ineq(a - b):
                         st.add_eq(r - (b if f.id == "min" else a))
                 return r
-            if f.id in self.closures:
-                return self.inline(self.closures[f.id], node, st)
-            if f.id in self.hooks:
-                return self.hooks[f.id](self, node, st)
-            if f.id in self.summaries:
+            tgt = f.id
+            if f.id in self.fnlocals:
+                # a local that holds a function: dispatch on the function it certainly holds
+                tok = st.enum_single(f.id)
+                if tok is not None and tok.startswith("fn:"):
+                    tgt = tok[3:]
+                else:
+                    self.note_fuzzy(node, f"call of the local `{f.id}`, which does not certainly hold one known function")
+                    return self.unknown_call(node, st)
+            if tgt in self.closures:
+                return self.inline(self.closures[tgt], node, st)
+            if tgt in self.hooks:
+                return self.hooks[tgt](self, node, st)
+            if tgt in self.summaries:
                 args = [self.ev(a, st) for a in node.args]
-                if self.record and f.id in self.record_calls:
-                    (self.early_calls if self.early else self.calls).append(CallRec(node, f.id, self.cidx.get((node.lineno, node.col_offset), -1),
+                if self.record and tgt in self.record_calls:
+                    (self.early_calls if self.early else self.calls).append(CallRec(node, tgt, self.cidx.get((node.lineno, node.col_offset), -1),
                                               args, {}, st.copy()))
-                return self.summarised_call(f.id, node, args, st)
+                return self.summarised_call(tgt, node, args, st)
             args = [self.ev(a, st) for a in node.args]
             kwargs = {k.arg: self.ev(k.value, st) for k in node.keywords if k.arg}
-            if self.record and f.id in self.record_calls:
-                (self.early_calls if self.early else self.calls).append(CallRec(node, f.id, self.cidx.get((node.lineno, node.col_offset), -1),
+            if self.record and tgt in self.record_calls:
+                (self.early_calls if self.early else self.calls).append(CallRec(node, tgt, self.cidx.get((node.lineno, node.col_offset), -1),
                                           args, kwargs, st.copy()))
+            if not (tgt in HARMLESS_CALLS or is_exception_name(tgt) or tgt in self.pkg_functions or tgt in ENUM_CLASSES):
+                self.note_fuzzy(node, f"call of `{tgt}`, which is not a function of the package")
+            self.escape(args + list(kwargs.values()), node)
             return self.opaque(node, st)
         if isinstance(f, ast.Attribute):
             s = self.sym_of(f.value)
@@ -527,6 +627,25 @@ class Interp:
                 return self.container_op(s, f.attr, node, st)
             if s and s.startswith("self.") and f.attr in ("append", "add", "pop", "remove", "discard", "clear", "extend", "insert"):
                 self.untracked.add(s)
+            # a method of the analysed class: analysed in place
+            if isinstance(f.value, ast.Name) and f.value.id == "self" and f.attr in self.methods:
+                m = self.methods[f.attr]
+                has_loop = any(isinstance(n, (ast.For, ast.While, ast.ListComp, ast.GeneratorExp)) for n in ast.walk(m))
+                if not is_generator_def(m) and not has_loop and self.inline_depth <= 2:
+                    return self.inline(m, node, st, skip_self=True)
+                if not is_generator_def(m) and self.effect_free(m):
+                    # a query: its result is a value of its own, nothing else changes
+                    args = [self.ev(a, st) for a in node.args] + [self.ev(k.value, st) for k in node.keywords]
+                    if not any(isinstance(v, Val) and v.kind == "container" for v in args):
+                        return self.opaque(node, st)
+                self.note_fuzzy(node, f"call of self.{f.attr}(), a method with effects that is not analysed in place")
+                return self.unknown_call(node, st)
+            harmless = (isinstance(f.value, ast.Name) and f.value.id in ("warnings", "np", "numpy", "math", "functools", "sys")) \
+                or f.attr in ("format", "join", "copy", "items", "keys", "values", "get", "index", "count") \
+                or (isinstance(f.value, ast.Call) and isinstance(f.value.func, ast.Name) and f.value.func.id == "super")
+            if not harmless:
+                self.note_fuzzy(node, f"call of `{ast.unparse(f)}`, which the analysis cannot resolve")
+                return self.unknown_call(node, st)
             # super().__init__(...)
             if f.attr == "__init__" and isinstance(f.value, ast.Call) and \
                     isinstance(f.value.func, ast.Name) and f.value.func.id == "super" \
@@ -536,6 +655,46 @@ class Interp:
             self.ev(a, st)
         for k in node.keywords:
             self.ev(k.value, st)
+        return self.opaque(node, st)
+
+    MUTATORS = ("append", "add", "pop", "remove", "discard", "clear", "extend", "insert", "update", "setdefault",
+                "popitem", "sort", "reverse", "appendleft", "popleft")
+
+    def effect_free(self, fdef, depth=0):
+        """no store to an attribute or subscript, no mutating call, no yield, no global/nonlocal, and only calls of
+        effect-free methods of the class"""
+        for n in ast.walk(fdef):
+            if isinstance(n, (ast.Attribute, ast.Subscript)) and isinstance(n.ctx, (ast.Store, ast.Del)):
+                return False
+            if isinstance(n, (ast.Yield, ast.YieldFrom, ast.Global, ast.Nonlocal)):
+                return False
+            if isinstance(n, ast.Call) and isinstance(n.func, ast.Attribute):
+                if n.func.attr in self.MUTATORS:
+                    return False
+                if isinstance(n.func.value, ast.Name) and n.func.value.id == "self":
+                    m = self.methods.get(n.func.attr)
+                    if m is None or depth > 2 or not self.effect_free(m, depth + 1):
+                        return False
+            if isinstance(n, ast.Call) and isinstance(n.func, ast.Name) and n.func.id in ("setattr", "delattr", "exec", "eval"):
+                return False
+        return True
+
+    def note_fuzzy(self, node, text):
+        item = (getattr(node, "lineno", 0) % 10000, text)
+        if item not in self.fuzzy:
+            self.fuzzy.append(item)
+
+    def escape(self, vals, node):
+        """a tracked container handed to code that is not analysed is no longer tracked"""
+        for v in vals:
+            if isinstance(v, Val) and v.kind == "container":
+                self.untracked.add(v.data)
+                self.note_fuzzy(node, f"the container `{v.data}` escapes into a call that is not analysed")
+
+    def unknown_call(self, node, st):
+        args = [self.ev(a, st) for a in node.args]
+        kwargs = [self.ev(k.value, st) for k in node.keywords]
+        self.escape(args + kwargs, node)
         return self.opaque(node, st)
 
     def container_op(self, c, op, node, st):
@@ -595,9 +754,9 @@ class Interp:
             self.ev(a, st)
         return self.opaque(node, st)
 
-    def inline(self, fdef, call, st, skip_self=False):
-        if self.inline_depth > 3:
-            return self.opaque(call, st)
+    def bind_params(self, fdef, call, states, skip_self=False):
+        """bind the parameters of fdef to the arguments of `call` in every state; -> the body of fdef with
+        parameters renamed apart (a container argument keeps the caller's name: same object)"""
         pre = f"{fdef.name}{self.inline_depth or ''}."
         ren = {}
         params = list(fdef.args.args)
@@ -613,22 +772,66 @@ class Interp:
         kw = {k.arg: k.value for k in call.keywords if k.arg}
         npos = len(fdef.args.args) - (1 if skip_self else 0)
         for i, p in enumerate(params):
-            if i < len(call.args) and i < npos:
-                v = self.ev(call.args[i], st)
-            elif p.arg in kw:
-                v = self.ev(kw[p.arg], st)
-            elif p.arg in defaults:
-                v = self.ev(defaults[p.arg], st)
-            else:
-                v = None
+            src = call.args[i] if (i < len(call.args) and i < npos) else kw.get(p.arg, defaults.get(p.arg))
             ren[p.arg] = pre + p.arg
-            self.set_loc(pre + p.arg, v, st)
+            for st in states:
+                v = self.ev(src, st) if src is not None else None
+                if isinstance(v, Val) and v.kind == "container":
+                    ren[p.arg] = v.data
+                    continue
+                self.set_loc(pre + p.arg, v, st)
+        # locals of the callee are renamed apart as well (a nested function shares the enclosing names it
+        # does not assign, or declares nonlocal)
+        nonlocal_ = {x for n in ast.walk(fdef) if isinstance(n, (ast.Nonlocal, ast.Global)) for x in n.names}
+        for n in ast.walk(fdef):
+            if isinstance(n, ast.Name) and isinstance(n.ctx, ast.Store) and n.id not in ren and n.id not in nonlocal_:
+                ren[n.id] = pre + n.id
         sub = Renamer(ren)
         body = [sub.visit(copy.deepcopy(s)) for s in fdef.body]
         for s in body:
             for n in ast.walk(s):
                 if hasattr(n, "lineno"):
                     n.col_offset = n.col_offset + 10000 * (self.inline_depth + 1)
+        return body
+
+    def yield_from(self, node, st):
+        """`yield from g(...)` with g a nested generator function or a generator method of the class: the
+        delegated generator's body is analysed in place (its actions are actions of this schedule)"""
+        call = node.value
+        fdef, skip_self = None, False
+        if isinstance(call, ast.Call):
+            f = call.func
+            if isinstance(f, ast.Name) and f.id in self.fnlocals:
+                tok = st.enum_single(f.id)
+                if tok and tok.startswith("fn:") and tok[3:] in self.closures:
+                    fdef = self.closures[tok[3:]]
+            elif isinstance(f, ast.Attribute) and isinstance(f.value, ast.Name) and f.value.id == "self" \
+                    and f.attr in self.methods:
+                fdef, skip_self = self.methods[f.attr], True
+                yield_index(fdef, self.yidx, self.ycounts)
+        if fdef is None or not is_generator_def(fdef) or self.inline_depth > 2:
+            raise Unsupported(f"yield from at line {node.lineno}: the delegated generator cannot be resolved")
+        body = self.bind_params(fdef, call, [st], skip_self)
+        self.inline_depth += 1
+        saved = self.outcomes
+        self.outcomes = []
+        try:
+            out, brk, cont = self.block(body, [st])
+            outs = list(self.outcomes)
+        finally:
+            self.inline_depth -= 1
+            self.outcomes = saved
+        for o in outs:
+            if o.kind == "raise":
+                self.outcomes.append(o)
+            elif o.kind == "return":
+                out.append(o.state)
+        return out
+
+    def inline(self, fdef, call, st, skip_self=False):
+        if self.inline_depth > 3:
+            return self.opaque(call, st)
+        body = self.bind_params(fdef, call, [st], skip_self)
         self.inline_depth += 1
         saved = self.outcomes
         self.outcomes = []
@@ -643,15 +846,20 @@ class Interp:
             self.record = rec
         # raises of the callee are outcomes of the caller; returns/ends continue
         conts = []
-        val = None
+        vals = []
         for o in outs:
             if o.kind == "raise":
                 if self.record:
                     self.outcomes.append(o)
             elif o.kind == "return":
                 conts.append(o.state)
-                val = o.what if val is None else val
+                vals.append(o.what)
+        if out:
+            vals.append(NONE)      # falling off the end returns None
         conts += out
+        val = vals[0] if vals else None
+        if any(repr(v) != repr(val) for v in vals[1:]):
+            val = "differs"
         merged = None
         for c in conts:
             merged = join(merged, c)
@@ -660,6 +868,10 @@ class Interp:
             return NONE
         st.rows, st.ineq, st.bottom, st.enums, st.may = \
             merged.rows, merged.ineq, merged.bottom, merged.enums, merged.may
+        st.neq, st.cond = merged.neq, merged.cond
+        if isinstance(val, str):
+            # several returns with different values: the result is a value of its own (the paths were joined)
+            return self.opaque(call, st, "ret.")
         return val if val is not None else NONE
 
     # ------------------------------------------------------------ conditions
@@ -721,7 +933,27 @@ class Interp:
             if val is not None and val != truth:
                 st.bottom = True
             return [st]
+        if isinstance(v, Val) and v.kind == "container":
+            # a container is true iff it is not empty
+            L = Lin.sym(f"len({v.data})")
+            if truth:
+                st.add_ineq(L - ONE)
+            else:
+                st.add_eq(L)
+            return [st]
         s = pure_sym(v)
+        if s is not None and st.enum_get(s) is None and (s in st.symbols() or s.startswith("len(")):
+            # a location with numeric facts: true iff non-zero
+            if truth:
+                if st.entails_eq(v) == "yes":
+                    st.bottom = True
+                elif st.entails_ineq(v):
+                    st.add_ineq(v - ONE)
+                else:
+                    st.add_neq(v)
+            else:
+                st.add_eq(v)
+            return [st]
         if s is not None:
             st.enum_meet(s, "in", ["True"] if truth else ["False"])
         return [st]
@@ -863,6 +1095,10 @@ class Interp:
                 for t, v in zip(tgt.elts, val):
                     self.assign_target(t, v, st)
             else:
+                if val is not None:
+                    # several values from one source the analysis has no model of: how they are related is
+                    # unknown, so paths that branch on them may be infeasible combinations
+                    self.note_fuzzy(tgt, "a value the analysis has no model of is unpacked into several variables")
                 for t in tgt.elts:
                     self.assign_target(t, None, st)
             return
@@ -886,6 +1122,8 @@ class Interp:
                 for k in range(old):
                     st.forget_all(f"{s}.{k}")
         if s.startswith("self."):
+            if self.record:
+                self.astores.append((tgt, s, st.copy(), val))
             self.attr_writes.add(s[5:])
             st.may["$stores"] = st.may.get("$stores", frozenset()) | {s[5:]}
             st.may["$seg"] = st.may.get("$seg", frozenset()) | {s[5:]}
@@ -908,6 +1146,12 @@ class Interp:
         if isinstance(s, (ast.If, ast.While, ast.For)):
             if isinstance(s, ast.If):
                 return self.do_if(s, states)
+            if isinstance(s, ast.For):
+                d = self.desugar_for(s)
+                if d is not None:
+                    out, brk, cont = self.block(d[:-1], states)
+                    o2, b2, c2 = self.loop(d[-1], out)
+                    return o2, brk + b2, cont + c2
             return self.loop(s, states)
         outs, brk, cont = [], [], []
         for st in states:
@@ -958,7 +1202,14 @@ class Interp:
 
     def simple(self, s, st):
         if isinstance(s, ast.FunctionDef):
-            self.closures[s.name] = s
+            # the name is bound to this function from here on (a token value, so that a name bound to
+            # different functions on different paths is dispatched per path)
+            key = f"{s.name}@{s.lineno}"
+            self.closures[key] = s
+            st.forget_all(s.name)
+            st.enum_set(s.name, "fn:" + key)
+            if self.fndefs.get(s.name, 0) > 1 and s.name not in self.partvars:
+                self.partvars = self.partvars + (s.name,)
             return [st], [], []
         if isinstance(s, ast.Assign):
             if len(s.targets) == 1 and isinstance(s.targets[0], ast.Name) \
@@ -988,9 +1239,29 @@ class Interp:
                 if self.record:
                     (self.early_cops if self.early else self.cops).append((s, c, "init", elts, st.copy()))
                 return [st], [], []
-            v = self.ev(s.value, st)
+            if len(s.targets) == 1 and isinstance(s.targets[0], ast.Name) and s.targets[0].id in self.partvars \
+                    and isinstance(s.value, (ast.Compare, ast.BoolOp)) and not self.exact_minmax:
+                # a boolean local the function branches on later: one state per truth value, each with the facts
+                # of the condition (so that `if flag:` further down knows what made the flag true)
+                outs = []
+                for truth_, tok in ((True, TRUE), (False, FALSE)):
+                    for st2 in self.assume(s.value, st, truth_):
+                        self.set_loc(s.targets[0].id, tok, st2)
+                        outs.append(st2)
+                return outs, [], []
+            if isinstance(s.value, ast.Name) and s.value.id not in self.fnlocals and s.value.id in self.pkg_functions:
+                v = Tok("fn:" + s.value.id)      # a local bound to a function of the package
+                for t in s.targets:
+                    if isinstance(t, ast.Name) and self.fndefs.get(t.id, 0) > 1 and t.id not in self.partvars:
+                        self.partvars = self.partvars + (t.id,)
+            else:
+                v = self.ev(s.value, st)
             if st.bottom:
                 return [], [], []
+            if isinstance(v, Val) and v.kind == "container":
+                # a second name for a tracked container: the analysis tracks one name per container
+                self.untracked.add(v.data)
+                self.note_fuzzy(s, f"the container `{v.data}` gets a second name")
             for t in s.targets:
                 self.assign_target(t, v, st)
             return [st], [], []
@@ -1000,6 +1271,11 @@ class Interp:
             if sym is None and self.record and isinstance(s.target, ast.Subscript):
                 self.substores.append((s.target, st.copy()))
             if sym and sym.startswith("self."):
+                if self.record:
+                    nv = None
+                    if isinstance(v, Lin) and isinstance(s.op, (ast.Add, ast.Sub)):
+                        nv = Lin.sym(sym) + v if isinstance(s.op, ast.Add) else Lin.sym(sym) - v
+                    self.astores.append((s.target, sym, st.copy(), nv))
                 self.attr_writes.add(sym[5:])
                 st.may["$stores"] = st.may.get("$stores", frozenset()) | {sym[5:]}
                 st.may["$seg"] = st.may.get("$seg", frozenset()) | {sym[5:]}
@@ -1009,6 +1285,8 @@ class Interp:
             elif sym:
                 st.forget_all(sym)
             return [st], [], []
+        if isinstance(s, ast.Expr) and isinstance(s.value, ast.YieldFrom):
+            return self.yield_from(s.value, st), [], []
         if isinstance(s, ast.Expr):
             if isinstance(s.value, ast.Yield):
                 return self.do_yield(s.value, st), [], []
@@ -1058,6 +1336,61 @@ class Interp:
         if isinstance(s, (ast.Pass, ast.Nonlocal, ast.Global, ast.Import, ast.ImportFrom)):
             return [st], [], []
         raise Unsupported(f"statement {type(s).__name__} at line {s.lineno}")
+
+    def desugar_for(self, s):
+        """`for t in range(a, b[, +-1])` as the while loop it is: the bounds are evaluated once, the hidden counter
+        starts at a, the body runs while it is below (above) b, t takes its value and the counter moves on before
+        the body (so that `continue` is right).  None if the loop has another form."""
+        if s.orelse or not isinstance(s.target, ast.Name):
+            return None
+        it = s.iter
+        if not (isinstance(it, ast.Call) and isinstance(it.func, ast.Name) and it.func.id == "range"
+                and 1 <= len(it.args) <= 3 and not it.keywords):
+            return None
+        step = 1
+        if len(it.args) == 3:
+            c = it.args[2]
+            if isinstance(c, ast.UnaryOp) and isinstance(c.op, ast.USub) and isinstance(c.operand, ast.Constant):
+                step = -c.operand.value
+            elif isinstance(c, ast.Constant):
+                step = c.value
+            else:
+                return None
+            if step not in (1, -1):
+                return None
+        cached = getattr(s, "_desugared", None)
+        if cached is not None:
+            return cached
+        tag = f"for{s.lineno}_{s.col_offset % 10000}"
+        lo = it.args[0] if len(it.args) > 1 else ast.Constant(0)
+        hi = it.args[1] if len(it.args) > 1 else it.args[0]
+
+        def name(x, ctx):
+            return ast.Name(f"${tag}.{x}", ctx)
+        pre = [ast.Assign([name("hi", ast.Store())], copy.deepcopy(hi)),
+               ast.Assign([name("it", ast.Store())], copy.deepcopy(lo))]
+        test = ast.Compare(name("it", ast.Load()), [ast.Lt() if step == 1 else ast.Gt()], [name("hi", ast.Load())])
+        body = [ast.Assign([ast.Name(s.target.id, ast.Store())], name("it", ast.Load())),
+                ast.Assign([name("it", ast.Store())],
+                           ast.BinOp(name("it", ast.Load()), ast.Add() if step == 1 else ast.Sub(), ast.Constant(1)))]
+        w = ast.While(test, body + list(s.body), [])
+        out = pre + [w]
+        for k, n in enumerate(out):
+            ast.copy_location(n, s)
+            for x in ast.walk(n):
+                if not hasattr(x, "lineno") or x in ast.walk(s):
+                    pass
+            ast.fix_missing_locations(n)
+        # positions of the synthetic nodes must not coincide with real ones (atoms are named by position)
+        k = 0
+        real = {id(x) for b in s.body for x in ast.walk(b)} | {id(x) for x in ast.walk(lo)} | {id(x) for x in ast.walk(hi)}
+        for n in out:
+            for x in ast.walk(n):
+                if id(x) not in real and hasattr(x, "col_offset"):
+                    k += 1
+                    x.col_offset = 30000 + (s.col_offset % 10000) * 50 + k
+        s._desugared = out
+        return out
 
     def loop(self, s, states):
         rec = self.record
@@ -1139,10 +1472,29 @@ class Interp:
     # ------------------------------------------------------------ yields
     def do_yield(self, y, st):
         call = y.value
-        kind, ordinal = self.yidx.get(id(y), ("?", -1))
+        kind, ordinal = self.yidx.get((y.lineno, y.col_offset % 10000), ("?", -1))
         if ordinal < 0:
             # inlined copy of a closure body: locate by position
             kind = call.func.id if isinstance(call, ast.Call) and isinstance(call.func, ast.Name) else "?"
+        ACTIONS = ("Forward", "Reverse", "Copy", "Move", "EndForward", "EndReverse")
+        if kind not in ACTIONS:
+            # the action class is named through a local (`load = Move if ... else Copy; yield load(...)`) or the
+            # action object was built earlier: resolve what the expression certainly denotes
+            dyn = None
+            f = call.func if isinstance(call, ast.Call) else None
+            if isinstance(f, ast.Name) and f.id in self.fnlocals:
+                tok = st.enum_single(f.id)
+                if tok and tok.startswith("fn:") and tok[3:] in ACTIONS:
+                    dyn = tok[3:]
+            if dyn is None:
+                self.note_fuzzy(y, "a yield whose action class the analysis cannot determine")
+            else:
+                # ordinal: after the literal yields of that kind, in source order of such sites
+                base = self.ycounts.get(dyn, 0)
+                key = ("dyn", dyn, y.lineno, y.col_offset % 10000)
+                if key not in self.yidx:
+                    self.yidx[key] = (dyn, base + sum(1 for k in self.yidx if isinstance(k[0], str) and k[0] == "dyn" and k[1] == dyn))
+                kind, ordinal = self.yidx[key]
         args = [self.ev(a, st) for a in call.args] if isinstance(call, ast.Call) else []
         kwargs = {k.arg: self.ev(k.value, st) for k in call.keywords} if isinstance(call, ast.Call) else {}
         rec = YieldRec(y, kind, ordinal, args, kwargs, st.copy())
